@@ -94,8 +94,8 @@ fn check(acc: &mut Acc, reg: &Registry, s: &dyn Subject, case: &Case, flat: bool
 }
 
 pub fn run(ctx: &Ctx, reg: &Registry) -> i32 {
-    let n_cases: u64 = ctx.tier.pick(400, 12000);
-    let n_base: u64 = ctx.tier.pick(6, 80);
+    let n_cases: u64 = ctx.tier.pick(1000, 15000);
+    let n_base: u64 = ctx.tier.pick(10, 80);
     let acc = ctx.par(|shard, n| {
         let mut acc = Acc::new();
         let mut unit = 0u64;
